@@ -366,11 +366,14 @@ def targets_of(m, n_orig):
     ln = len(spec)
     if m["class"] == "truncation":
         return list(range(0, n_orig + 1))
-    if "m" in spec:
-        i = spec.index("m")
-        t = [min(i + 1, ln), ln]
-        return [t[0]] if t[0] == t[1] else t
-    return list(range(1, ln + 1))
+    # just past the first altered position, and the end of the altered history (the harness checks every target
+    # of a structural edit on the implementation; the model is evaluated on these two)
+    if ln == 0:
+        return []
+    i = next((k for k, tok in enumerate(spec) if tok != f"b{k}"), ln)
+    t = [min(i + 1, ln), ln]
+    t = [x for x in t if x >= 1] or [ln]
+    return [t[0]] if len(t) == 2 and t[0] == t[1] else t
 
 
 def correspondence(r, cases, by_case, tier):
@@ -388,13 +391,16 @@ def correspondence(r, cases, by_case, tier):
         if not ents or (ws[0], 0) not in ents or ents[(ws[0], 0)]["patch"] is None or any((w, 0) not in ents for w in ws):
             continue
         # alterations evaluated on the model: every structural edit, at least one of each class, the rest sampled
-        chosen, seen, rest = [], set(), []
+        chosen, seen, rest, structural = [], set(), [], []
         for m in alts:
-            if m["class"] not in seen or "m" not in m["spec"].split(","):
+            if m["class"] not in seen:
                 seen.add(m["class"]); chosen.append(m)
+            elif "m" not in m["spec"].split(","):
+                structural.append(m)
             else:
                 rest.append(m)
-        r.rng.shuffle(rest)
+        r.rng.shuffle(rest); r.rng.shuffle(structural)
+        chosen += structural[:model_budget // 3]
         chosen += rest[:max(0, model_budget - len(chosen))]
         allnames = ";".join(f"b{w}_{t}" for w in ws for t in range(len(base[w])))
         terms = [f"map preimages [{allnames}]"]
@@ -580,3 +586,37 @@ def run(tier, seed, replay=None):
     if (r.broken and not r.violations) and not replay:
         r.phase("P6_search", note="the oracle already ran every alteration on every generated history; nothing failed")
     return r.finish()
+
+
+MANIFEST = {
+    "category": "proof",
+    "text": ("Coq theorems (no axioms; the hash H, the graph state, patch application and the state root are universally quantified "
+             "parameters, conclusions are `... \\/ Collision H`) over an executable model of the provenance chain: byte-exact "
+             "commit-id / patch-digest / receipt-digest preimages (injective: commit_preimage_inj, patch_preimage_inj, hence "
+             "commit_binds, patch_binds), append validation (append_gapfree, append_only, coordinator_chain_linked), and replay "
+             "verification including the coordinate / parent-link check: replay_single_field_tamper (any alteration of one "
+             "retained field of one entry at any position is rejected or yields the original core result), "
+             "replay_structural_tamper (swap / duplication / removal / repetition / as-is transplant: whatever still verifies "
+             "is a prefix of the original), replay_anchored and replay_tip_anchored (one trusted tip commit id pins every "
+             "committed field of the chain), replay_truncation, checkpoint_validated; unlinked_replay_any_tamper_refuted shows "
+             "what fails without the link check (the defect fixed in 90bd2fa). The model is tied to /repo by generating real "
+             "multi-worldline histories through SchedulerCoordinator::super_tick and feeding EVERY single-field alteration of "
+             "every retained entry field at every position (each hash, tick, worldline, parent, head, kind, patch header field, "
+             "op field, atom payload byte, slot, receipt entry, output) plus swap / duplication / removal / truncation / "
+             "cross-worldline transplant, checkpoint, BTR and suffix-bundle field alterations to the real verifiers "
+             "(PlaybackCursor::seek_to over a tampering ProvenanceStore, append_local_commit + replay_worldline_state_at, "
+             "validate_btr, add_checkpoint, import_suffix): oracle = typed error or exactly the original core result (reachable "
+             "graph, state root, commit-id chain, tick); correspondence = blake3 of the model's preimages equals the "
+             "implementation's digests, and the model's predicted outcome (error kind and tick / result) of each alteration "
+             "equals the implementation's."),
+    "note": ("Trusted: Coq kernel + vm_compute; python generator/renderer; harness c05.rs (reachable-graph dump, entry serialisation, "
+             "tampering store view); blake3 crate; blake3 assumed collision free on the generated preimages when the model is run "
+             "with the table of real preimages as H. Modelled rather than verified: snapshot.rs compute_commit_hash_v2, "
+             "tick_patch.rs compute_patch_digest_v2/encode_*/WarpTickPatchV1::new canonicalisation, receipt.rs "
+             "compute_tick_receipt_digest, provenance_store.rs append/replay/restore/validate_checkpoint (chain-relevant part) as "
+             "Gallina functions; apply/root are abstract (C04/C06). Exercised on the implementation only (oracle, no model): "
+             "validate_btr, add_checkpoint metadata validation, at-rest checkpoint alterations, import_suffix/bundle digests, "
+             "step-wise cursor advance. Fields documented as outside commit id v2 (plan/rewrites digests, recorded outputs, "
+             "atom writes, head key, global ticks, event kind, parent coordinates, receipt blocker lists, BTR counter/auth tag) "
+             "are reported in evidence as unbound, not as violations (diagnostics_unbound_refuted)."),
+}
